@@ -206,7 +206,7 @@ func (v *Verifier) callFuncValue(s *State, call *ast.CallExpr) []*Term {
 	}
 	// function-type contracts: a contract registered under gvc/functype for the
 	// signature of the called value (first contract parameter is the value itself)
-	if name, ok := funcTypeContracts[types.TypeString(sig, nil)]; ok {
+	if name, ok := funcTypeContracts[types.TypeString(sig, func(p *types.Package) string { return p.Name() })]; ok {
 		if fc := v.eng.contracts["gvc/functype#"+name]; fc != nil {
 			ps := []*types.Var{types.NewVar(token.NoPos, v.pkg.Types, "self", types.Typ[types.Int])}
 			for i := 0; i < sig.Params().Len(); i++ {
@@ -225,6 +225,13 @@ func (v *Verifier) callFuncValue(s *State, call *ast.CallExpr) []*Term {
 // funcTypeContracts maps a function type to the name of its contract in gvc/functype.
 var funcTypeContracts = map[string]string{
 	"func() hash.Hash": "hashCtor",
+	// SLH-DSA hash function fields (internal/signature/slhdsa.params)
+	"func(r []byte, pkSeed []byte, pkRoot []byte, msg []byte, m uint32) []byte": "slhHMsg",
+	"func(pkSeed []byte, skSeed []byte, adrs *slhdsa.address, n uint32) []byte":  "slhPrf",
+	"func(skPrf []byte, optRand []byte, M []byte, n uint32) []byte":             "slhPrfMsg",
+	"func(pkSeed []byte, adrs *slhdsa.address, M1 []byte, n uint32) []byte":     "slhF",
+	"func(pkSeed []byte, adrs *slhdsa.address, M2 []byte, n uint32) []byte":     "slhH",
+	"func(pkSeed []byte, adrs *slhdsa.address, Ml []byte, n uint32) []byte":     "slhTl",
 }
 
 func (v *Verifier) havocCall(s *State, sig *types.Signature, hint string) []*Term {
